@@ -64,7 +64,11 @@ mod verif_kani_print {
     // C04 "every solve terminates cleanly": the figure formatter of the verbose status lines must not panic on the values an
     // ill-posed problem produces (inf, -inf, NaN): `expformat!` sends only finite values through `_exp_str_reformat`, which
     // unwraps the position of the exponent marker.  Concrete, loop bounds from the format machinery only => complete for these inputs.
+    // (the reformatting function is stubbed by one that fails when reached: what is checked is that the macro keeps non-finite
+    //  values away from it; running the real string search on "inf" does not finish in CBMC)
+    fn exp_reformat_must_not_be_reached(_s: String) -> String { panic!("_exp_str_reformat reached with a non-finite value") }
     #[kani::proof]
+    #[kani::stub(_exp_str_reformat, exp_reformat_must_not_be_reached)]
     #[kani::unwind(12)]
     fn expformat_nonfinite_no_panic() {
         let a = expformat!("{:+8.4e}", f64::INFINITY);
